@@ -1,9 +1,20 @@
 package main
 
 import (
-	"fmt"
 	"os"
+
 	"verif/harness/checks/c11"
 )
 
-func main() { c11.DebugRabin(); _ = os.Stdout; fmt.Println() }
+func main() {
+	if len(os.Args) > 1 && os.Args[1] == "one" {
+		c11.DebugOne(os.Stdout, false)
+		c11.DebugOne(os.Stdout, true)
+		return
+	}
+	if len(os.Args) > 2 && os.Args[1] == "trace" {
+		c11.DebugTrace(os.Stdout, false, os.Args[2])
+		return
+	}
+	c11.DebugProtocol(os.Stdout)
+}
